@@ -120,6 +120,22 @@ Section ChatPrompt.
            if too_many msgs last then ErrTooManyImages else scan msgs last
     end.
 
+  (** number of calls of [tokenize] the scan makes (one per measured suffix start, the non-fitting one included);
+      a tokenizer error on one of them makes chatPrompt return that error *)
+  Fixpoint scan_calls (msgs : list msg) (k : nat) : nat :=
+    match k with
+    | O => O
+    | S i => if too_many msgs i then O
+             else if fits msgs i then S (scan_calls msgs i) else 1%nat
+    end.
+
+  Definition tokenize_calls (msgs : list msg) : nat :=
+    match msgs with
+    | [] => O
+    | _ => let last := (length msgs - 1)%nat in
+           if too_many msgs last then O else scan_calls msgs last
+    end.
+
   (** the retained run after the image loop, and what is handed to the template at the end *)
   Definition retained (msgs : list msg) (n : nat) : list msg := rewrite_all mllama 0 (skipn n msgs).
 
